@@ -36,7 +36,8 @@ META = {
                    "of reachable writers of singleton configuration, the re-schedule guard, and cloning of attribute "
                    "defaults. Close to sufficient for 'function of the text' modulo the trusted base."
                    " Also: a census of class-/module-level mutable containers with reachable run-time writers, iteration over syntactically set-typed expressions, automatic discharge of id() used for membership only, resource preparation that leaves the booking ledgers alone, and framework callbacks (lark transformer methods) as reachability roots."
-                   " Round 3: per-scenario work of schedule() done at most once (dominance + must-fact), parser objects per text or fully re-initialised, single-slot memos.",
+                   " Round 3: per-scenario work of schedule() done at most once (dominance + must-fact), parser objects per text or fully re-initialised, single-slot memos."
+                   " Round 4: no decision reads the process-wide message count; ledger rules conditional on once-per-scenario.",
     "assumptions": ["CPython arithmetic, lark and dateutil are deterministic", "dict iteration order = insertion order"],
 }
 
